@@ -20,21 +20,47 @@ def _table(poly):
 _T32 = _table(POLY32)
 _T64 = _table(POLY64)
 
-def crc32(data, init=0):
-    """CRC32 (IEEE 802.3, reflected). `init` is a previous return value for incremental use."""
+def crc32_table(data, init=0):
+    """CRC32 (IEEE 802.3, reflected), table version of the document's code."""
     c = init ^ 0xFFFFFFFF
     t = _T32
     for b in bytes(data):
         c = t[(b ^ c) & 0xFF] ^ (c >> 8)
     return c ^ 0xFFFFFFFF
 
-def crc64(data, init=0):
-    """CRC64 (ECMA-182, reflected). `init` is a previous return value for incremental use."""
+def crc64_table(data, init=0):
+    """CRC64 (ECMA-182, reflected), table version of the document's code."""
     c = init ^ 0xFFFFFFFFFFFFFFFF
     t = _T64
     for b in bytes(data):
         c = t[(b ^ c) & 0xFF] ^ (c >> 8)
     return c ^ 0xFFFFFFFFFFFFFFFF
+
+try:
+    import zlib as _zlib
+    if _zlib.crc32(b"123456789") != crc32_table(b"123456789") or \
+       _zlib.crc32(b"\x00\xff" * 40, 0x12345678) != crc32_table(b"\x00\xff" * 40, 0x12345678):
+        _zlib = None
+except ImportError:
+    _zlib = None
+
+def crc32(data, init=0):
+    """CRC32 of the .xz format. `init` is a previous return value for incremental use.
+    Uses zlib's implementation (validated against the table version at import) for speed."""
+    if _zlib is not None:
+        return _zlib.crc32(bytes(data), init) & 0xFFFFFFFF
+    return crc32_table(data, init)
+
+def crc64(data, init=0):
+    """CRC64 of the .xz format. Big inputs go through the C helper (same table algorithm) when available."""
+    if len(data) >= (1 << 16) and init == 0:
+        try:
+            from . import chelper
+            if chelper.available():
+                return chelper.crc64(data)
+        except Exception:
+            pass
+    return crc64_table(data, init)
 
 def crc32_bitwise(data, init=0):
     """Bit-at-a-time definition (used by the selftest to validate the table version)."""
